@@ -630,8 +630,8 @@ def check_C05(ctx):
                          "modelled, not verified: the application's Database is assumed to return from GetOutbox what SetOutbox last stored (the history theorem's premise); Go map iteration order in the Social Create normalisation is a permutation parameter"],
                         {"monitors": ["order_bad", "create_bad", "history_bad"], "classify": classify,
                          "rule": "every standard outbox / Send scenario with every single fault, plus sequences of 1..8 posts to two outboxes against one evolving world (some posts rejected, some failing at a random call); judged by the ordering monitor, the fresh-id check and the listing theorem's equation"},
-                        family_filter=lambda f: f.startswith(("outbox:", "send:", "seq:", "deliver:", "shape:outbox:")),
-                        run_specs=[("shape", SHAPE[ctx.tier]), ("seq", ["-families", "seq", "-n", n, "-faults", "none", "-maxruns", "6000"]), ("std", PUB_STD[ctx.tier])])
+                        family_filter=lambda f: f.startswith(("outbox:", "send:", "seq:", "deliver:", "shape:outbox:", "again:two-hosts", "again:two-outboxes")),
+                        run_specs=[("shape", SHAPE[ctx.tier]), ("seq", ["-families", "seq", "-n", n, "-faults", "none", "-maxruns", "6000"]), ("again", AGAIN[ctx.tier]), ("std", PUB_STD[ctx.tier])])
 
 
 def replay_C05(ctx):
@@ -646,8 +646,8 @@ def check_C16(ctx):
                          "modelled, not verified: streams.ToType on the merged member map (decoding; C01) is the model's to_type; time formatting (C20)"],
                         {"monitors": ["effects_bad", "targets_bad"], "classify": classify,
                          "rule": "stored objects against random partial updates with overlapping / disjoint / null members; 1..3 objects and targets per Add/Remove (owned, not owned, ordered, unordered, duplicates); Like and Block with 1..3 objects; object / target absent; every single fault; each Database.Update of the real run compared with the effect function applied to what the real Get returned"},
-                        family_filter=lambda f: f.startswith(("outbox:", "send:", "effects:", "shape:outbox:")),
-                        run_specs=[("shape", SHAPE[ctx.tier]), ("effects", ["-families", "effects", "-n", "10" if ctx.tier == "quick" else "150", "-faults", "single", "-maxruns", "20000", "-shards", "8"]), ("std", PUB_STD[ctx.tier])])
+                        family_filter=lambda f: f.startswith(("outbox:", "send:", "effects:", "shape:outbox:", "overrides:outbox:")),
+                        run_specs=[("shape", SHAPE[ctx.tier]), ("overrides", OVERRIDES), ("effects", ["-families", "effects", "-n", "10" if ctx.tier == "quick" else "150", "-faults", "single", "-maxruns", "20000", "-shards", "8"]), ("std", PUB_STD[ctx.tier])])
 
 
 def replay_C16(ctx):
